@@ -524,3 +524,48 @@ func (w *World) SetBrokerDial(f func(addr string) (net.Conn, error)) { w.dialTCP
 
 // SignalNotify replaces os/signal.Notify: signals are not simulated.
 func SignalNotify(c chan<- os.Signal, sig ...os.Signal) {}
+
+// ---- select control ----
+
+// SelOrder returns the order in which the n communication cases of the select at site are probed.
+// Keyed by (site, per-site counter) so that it does not depend on who asks first.
+func SelOrder(site string, n int) []int {
+	r := make([]int, n)
+	for i := range r {
+		r[i] = i
+	}
+	w := cur.Load()
+	if w == nil {
+		return r
+	}
+	w.mu.Lock()
+	k := w.chanSeq["sel:"+site]
+	w.chanSeq["sel:"+site] = k + 1
+	w.mu.Unlock()
+	for i := n - 1; i > 0; i-- {
+		j := int(w.Keyed("sel", site, k, i) * float64(i+1))
+		r[i], r[j] = r[j], r[i]
+	}
+	return r
+}
+
+func ZeroOf[T any](ch <-chan T) (z T) { return }
+
+// TryRecv: non-blocking receive. ready=false means nothing was received.
+func TryRecv[T any](ch <-chan T) (v T, ok bool, ready bool) {
+	select {
+	case v, ok = <-ch:
+		return v, ok, true
+	default:
+		return v, false, false
+	}
+}
+
+func TrySend[T any](ch chan<- T, x T) bool {
+	select {
+	case ch <- x:
+		return true
+	default:
+		return false
+	}
+}
